@@ -699,7 +699,7 @@ def rename_map(old, new):
     return m
 
 
-CLAUSE_KINDS = ('post', 'inv', 'dec', 'effect', 'assert', 'lemma', 'wf')
+CLAUSE_KINDS = ('post', 'inv', 'dec', 'effect', 'assert', 'lemma', 'wf', 'callsite')
 
 
 def clause_key(ob):
